@@ -22,7 +22,44 @@ def is_signed(event, config):
     """
     Ensure the event is correctly formatted and signed
     """
-    if not event.verify():
+    hexdigits = frozenset("0123456789abcdef")
+
+    def is_hex(value, length):
+        return (
+            isinstance(value, str)
+            and len(value) == length
+            and hexdigits.issuperset(value)
+        )
+
+    if not (
+        is_hex(event.id, 64)
+        and is_hex(event.pubkey, 64)
+        and is_hex(event.sig, 128)
+        and type(event.created_at) is int
+        and type(event.kind) is int
+        and isinstance(event.content, str)
+        and isinstance(event.tags, (list, tuple))
+        and all(
+            isinstance(tag, (list, tuple))
+            and len(tag) > 0
+            and all(isinstance(item, str) or type(item) is int for item in tag)
+            for tag in event.tags
+        )
+    ):
+        raise StorageError("invalid: Bad format")
+    try:
+        # the claimed id must be the hash of the event's own fields
+        # (verify() checks the signature over the recomputed hash only)
+        verified = (
+            event.id
+            == event.compute_id(
+                event.pubkey, event.created_at, event.kind, event.tags, event.content
+            )
+            and event.verify()
+        )
+    except (ValueError, TypeError):
+        verified = False
+    if not verified:
         raise StorageError("invalid: Bad signature")
 
 
